@@ -65,7 +65,14 @@ SIB = 'b'
 # typed / empty components: same value under another type (32=a vs a), 3-byte type number (253=a), empty value (8=)
 LABEL_POOL = ['a', 'ab', '32=a', '8=', '253=a', '32=ab', '32=']
 DEPTH = 4
-REPRS = ['uri', 'uri-pct', 'strlist', 'byteslist', 'balist', 'mvlist', 'rwmvlist', 'mixed', 'wire', 'wire-ba', 'wire-mv']
+REPRS = ['uri', 'uri-pct', 'uri-pctl', 'strlist', 'byteslist', 'balist', 'mvlist', 'rwmvlist', 'mixed', 'wire', 'wire-ba', 'wire-mv',
+         'wire-rwmv', 'tuple', 'iter']
+# read-only views of buffers the caller goes on writing to: kept out of the stream - on the unchanged library the trie
+# keeps such views as keys (finding, candidate_fixes/C04-readonly-view-of-mutable-buffer); VERIF_C04_ROMV=1 adds them
+import os
+if os.environ.get('VERIF_C04_ROMV'):
+    REPRS = REPRS + ['romvlist', 'wire-romv']
+RX_FORMS = ['ba', 'mv', 'rwmv']      # buffer class in which the face hands an Interest to the application (absent = bytes)
 
 
 # ------------------------------------------------------------------------------------- names
@@ -106,6 +113,21 @@ def represent(path, how):
         return '/' + '/'.join(path), []
     if how == 'uri-pct':              # the same name written with explicit type numbers and percent-encoded values
         return '/' + '/'.join('%d=%s' % (t, ''.join('%%%02X' % c for c in v)) for t, v in map(label_tv, path)), []
+    if how == 'uri-pctl':             # ... with lower-case hex digits
+        return '/' + '/'.join('%d=%s' % (t, ''.join('%%%02x' % c for c in v)) for t, v in map(label_tv, path)), []
+    if how == 'tuple':
+        return tuple(comps), []
+    if how == 'iter':                 # any iterable of components is a name: a one-shot iterator
+        return iter(list(comps)), []
+    if how == 'romvlist':
+        bas = [bytearray(c) for c in comps]
+        return [memoryview(b).toreadonly() for b in bas], bas
+    if how == 'wire-romv':
+        ba = bytearray(wire)
+        return memoryview(ba).toreadonly(), [ba]
+    if how == 'wire-rwmv':
+        ba = bytearray(wire)
+        return memoryview(ba), [ba]
     if how == 'strlist':
         return list(path), []
     if how == 'byteslist':
@@ -208,6 +230,9 @@ def _replies(rng, lifetime):
 
 def _interest(rng, fe, path, env=None):
     lifetime = rng.choice([None, 0, 1, 2, 10, 100, 100, 4000, 60000])
+    if rng.random() < 0.12:
+        # InterestLifetime at the width boundaries of its encoding (1 / 2 / 4 / 8 bytes) and beyond a minute
+        lifetime = rng.choice([255, 256, 65535, 65536, 600000, 2 ** 32 - 1, 2 ** 32])
     tok = None
     if fe != 'disp' and rng.random() < (0.3 if fe == 'v2' else 0.1):
         tok = bytes(rng.randrange(256) for _ in range(rng.choice([1, 4, 8]))).hex()
@@ -237,6 +262,8 @@ def _interest(rng, fe, path, env=None):
                     k = rng.randrange(2, 6)
                     ev[6] = [[rng.choice([0, L, L + 1, o['vdelay'] + L - 1, o['vdelay'] + L]),
                               ('06%02x' % (2 + k)) + '0700' + '%02x' % rng.randrange(256) * k]]
+    if fe != 'disp' and rng.random() < 0.15:
+        o['rx'] = rng.choice(RX_FORMS)
     if o:
         ev.append(o)
     return ev
@@ -291,8 +318,13 @@ def _via(rng, fe, kind, handler=True):
     unset_interest_filter / Dispatcher; route = the route() decorator; register / unregister = legacy coroutines"""
     if fe == 'v2' and kind == 'a' and handler and rng.random() < 0.2:
         return '@route'
-    if fe == 'v1' and kind == 'a' and handler and rng.random() < 0.3:
-        return rng.choice(['@route', '@register'])
+    if fe == 'v1' and kind == 'a' and handler:
+        # legacy options of a route: the handler is also given the raw packet / the signature pointers (as keyword
+        # arguments it must have asked for: each handler of the harness accepts exactly what it asked for)
+        opts = rng.choice(['', '', '', '+rp', '+sp', '+rp+sp'])
+        if rng.random() < 0.3:
+            return rng.choice(['@route', '@register']) + opts
+        return '@' + opts if opts else ''
     if fe == 'v1' and kind == 'd' and rng.random() < 0.25:
         return '@unregister'
     return ''
@@ -412,7 +444,9 @@ def shrink(case):
                 if k != 'id':
                     yield mk(_with(evs, i, e[:7] + [{a: b for a, b in e[7].items() if a != k}]))
         elif e[0] in ('a', 'd'):
-            if '@' in e[-1]:
+            if '+' in e[-1]:
+                yield mk(_with(evs, i, e[:-1] + [e[-1].split('+')[0].rstrip('@')]))
+            elif '@' in e[-1]:
                 yield mk(_with(evs, i, e[:-1] + [e[-1].split('@')[0]]))
             elif e[-1] != 'uri':
                 yield mk(_with(evs, i, e[:-1] + ['uri']))
@@ -477,9 +511,20 @@ def run_impl(case):
             calls.append((hid, name_hex(name), reply, context))
         return handler
 
-    def mk_v1(hid):
-        def handler(name, param, app_param):
-            calls.append((hid, name_hex(name), None, None))
+    def mk_v1(hid, rp=False, sp=False):
+        # a legacy handler accepts exactly the keyword arguments its route asked for
+        if rp and sp:
+            def handler(name, param, app_param, raw_packet, sig_ptrs):
+                calls.append((hid, name_hex(name), None, None))
+        elif rp:
+            def handler(name, param, app_param, raw_packet):
+                calls.append((hid, name_hex(name), None, None))
+        elif sp:
+            def handler(name, param, app_param, sig_ptrs):
+                calls.append((hid, name_hex(name), None, None))
+        else:
+            def handler(name, param, app_param):
+                calls.append((hid, name_hex(name), None, None))
         return handler
 
     rig = None
@@ -498,7 +543,11 @@ def run_impl(case):
     closures = {}           # Interest id -> (index of its record in the trace, reply closure)
 
     def set_clock(ms):
-        rig.loop.advance((ms + 0.5) / 1000.0)
+        # timers due at this very instant fire whatever the float rounding (the clock reaches 2^32 ms and more,
+        # where one ulp of the seconds reading exceeds the loop's own slack)
+        t = (ms + 0.5) / 1000.0
+        rig.loop.advance(t + 1e-6)
+        rig.loop._vt = t
         assert rig.now_ms() == ms, (rig.now_ms(), ms)
 
     def task_outcome(coro_or_none, thunk=None):
@@ -522,7 +571,7 @@ def run_impl(case):
             if task.done() and not task.cancelled() and task.exception() is not None:
                 raise task.exception()
 
-    def do_op(kind, via, obj, h, val):
+    def do_op(kind, via, obj, h, val, rp=False, sp=False):
         if fe == 'disp':
             return disp.register(obj, h) if kind == 'a' else disp.unregister(obj)
         app = rig.app
@@ -537,10 +586,10 @@ def run_impl(case):
                 return task_outcome(app.unregister(obj))
             return app.unset_interest_filter(obj)
         if via == 'route':
-            return task_outcome(None, lambda: app.route(obj, val)(h))
+            return task_outcome(None, lambda: app.route(obj, val, rp, sp)(h))
         if via == 'register':
-            return task_outcome(app.register(obj, h, val))
-        return app.set_interest_filter(obj, h, val)
+            return task_outcome(app.register(obj, h, val, rp, sp))
+        return app.set_interest_filter(obj, h, val, rp, sp)
 
     def do_reply(rec, reply, data, down):
         n_sent = len(rig.face.sent)
@@ -561,15 +610,19 @@ def run_impl(case):
         for ev in case['events']:
             if ev[0] in ('a', 'd'):
                 how, _, via = ev[-1].partition('@')
+                via, *flags = via.split('+')
+                rp, sp = 'rp' in flags, 'sp' in flags
                 obj, scribble = represent(ev[1], how)
                 exc = None
                 try:
-                    h = mk(ev[2]) if ev[0] == 'a' and ev[2] is not None else None
+                    h = None
+                    if ev[0] == 'a' and ev[2] is not None:
+                        h = mk(ev[2], rp, sp) if fe == 'v1' else mk(ev[2])
                     if h is None:
                         via = via if ev[0] == 'd' else ''
                     # every attach brings its own (accepting) validator, tagged with the event index, so that
                     # the validator in force at a prefix can be observed after a refused attach
-                    do_op(ev[0], via, obj, h, _mkval(fe, len(trace)) if fe != 'disp' else None)
+                    do_op(ev[0], via, obj, h, _mkval(fe, len(trace)) if fe != 'disp' else None, rp, sp)
                 except Exception as e:      # noqa
                     exc = _exc_name(e)
                 if not via:
@@ -621,8 +674,11 @@ def run_impl(case):
                 pkt = wire if tok is None else tlv(0x64, tlv(0x62, bytes.fromhex(tok)) + tlv(0x50, wire))
                 n_sent = len(rig.face.sent)
                 VDELAY['ms'] = iopts(ev).get('vdelay', 0) if fe == 'v2' else 0
+                rx = iopts(ev).get('rx')
+                buf = pkt if rx is None else bytearray(pkt) if rx == 'ba' else memoryview(pkt) if rx == 'mv' else \
+                    memoryview(bytearray(pkt))
                 try:
-                    rig.deliver(pkt)
+                    rig.deliver(buf, rig._typ(pkt))
                     if VDELAY['ms'] and not calls:
                         # the validator of the prefix is still at work: the handler runs when it has finished; the
                         # lifetime of the Interest keeps counting from its arrival
@@ -909,10 +965,13 @@ def tags(case, impl):
     for ev, rec in zip(case['events'], impl['trace']):
         if ev[0] in ('a', 'd'):
             how, _, via = ev[-1].partition('@')
+            via, *flags = via.split('+')
             t.append('%s:%s' % (ev[0], rec['exc'] or 'ok'))
             t.append('repr:' + how)
             if via:
                 t.append('via:' + via)
+            if flags:
+                t.append('legacy-route-options:' + '+'.join(flags) + (':refused' if rec['exc'] else ''))
             if ev[0] == 'a' and ev[2] is None:
                 t.append('null-handler')
             key = tuple(ev[1])
@@ -934,8 +993,12 @@ def tags(case, impl):
             for k in iopts(ev):
                 if k == 'vdelay':
                     t.append('slow-validator:' + ('handler-ran-late' if ev[7][k] > L else 'in-time'))
+                elif k == 'rx':
+                    t.append('rx:' + ev[7][k])
                 elif k != 'id':
                     t.append('interest-' + k + ('-empty' if k == 'app' and ev[7][k] == '' else ''))
+            if ev[3] is not None and ev[3] >= 255 and ev[3] not in (4000, 60000):
+                t.append('lifetime-boundary:%d' % ev[3])
     return t
 
 
